@@ -34,7 +34,7 @@ def lean_queries(cases, caps, queries):
         if caps[i] is None or caps[i].nodump:
             continue
         lines += P.case_block(str(i), caps[i], None)
-        if any(q in ('STYPE', 'PASSES') for q in qs):
+        if any(q in ('STYPE', 'PASSES', 'FROMDFA') for q in qs):
             lines += caps[i].raw
         for q in qs:
             lines.append('Q ' + q)
